@@ -85,7 +85,21 @@ type Outcome struct {
 	Events     uint64         `json:"events"`
 	Stats      map[string]int `json:"stats,omitempty"`
 	Sample     string         `json:"sample,omitempty"`
+	// Subs is filled only in explain mode (FGSIM_EXPLAIN=1): one entry per
+	// (sub-)run, so that the parent can say what differs between two levels.
+	Subs []SubResult `json:"subs,omitempty"`
 }
+
+type SubResult struct {
+	K         int    `json:"k"`
+	Kind      string `json:"kind"`
+	OutLen    int    `json:"out_len"`
+	RefPrefix bool   `json:"ref_prefix"` // output is a prefix of the reference inflater's output
+	RefTrunc  bool   `json:"ref_trunc"`  // the reference inflater says the input is a truncated valid stream
+	Digest    uint64 `json:"digest"`
+}
+
+var ExplainMode = false
 
 func (o *Outcome) stat(k string, n int) {
 	if o.Stats == nil {
@@ -97,6 +111,14 @@ func (o *Outcome) stat(k string, n int) {
 func (o *Outcome) violate(tr *Trace, oracle, detail string, feat map[string]string) {
 	if len(detail) > 1500 {
 		detail = detail[:1500] + "..."
+	}
+	if tr.W != nil && tr.W.Ctor == "dict" && tr.W.Dict != nil {
+		if feat == nil {
+			feat = map[string]string{}
+		}
+		if _, ok := feat["same_as_stdlib_writer"]; !ok {
+			feat["same_as_stdlib_writer"] = fmt.Sprint(sameAsStdlibAll(tr.W))
+		}
 	}
 	c := tr.Clone()
 	c.Sweep = false
